@@ -13,12 +13,12 @@ RULE = (
     "external subroutine/function, module and internal subprograms, BLOCK constructs nested in each "
     "other and inside IF / SELECT / DO / labelled-DO bodies; 1-2 top-level units) x a reference "
     "name(args) to an intrinsic at EVERY scope x a shadowing declaration (scalar, array, USE ONLY) at "
-    "every subset of <= 2 scopes x intrinsic name. Oracles: table tree == scope tree (names, nesting, "
+    "every subset of <= 2 scopes x intrinsic name x {no other USE | an unrelated USE ONLY | a wildcard USE of the same module} in every non-declaring scope. Oracles: table tree == scope tree (names, nesting, "
     "no duplicates), per-table symbols == declarations of that scope, used modules == USEs, and each "
     "reference is an Intrinsic_Function_Reference iff no declaration is visible (own scope or ancestor). "
     "Non-trivial = program with >= 2 scopes."
 )
-ASSUMPTIONS = ["ground truth (which scope declares what, which scope encloses which) is known from the generator", "no wildcard USE; interface bodies excluded"]
+ASSUMPTIONS = ["ground truth (which scope declares what, which scope encloses which) is known from the generator", "wildcard USE only with valid argument counts (where it does not change resolution); interface bodies excluded"]
 BOUNDS = {"quick": dict(shadow_subsets=2, intrinsics=3, decl_kinds=3), "thorough": dict(shadow_subsets=2, intrinsics=8, decl_kinds=3, pairs=True)}
 
 # (referenced name, arguments, std, declared name, does the declaration shadow the reference?)
@@ -136,6 +136,11 @@ def render(units, ref_scopes, intr, shadows, bystander=False):
         out = []
         if s.idx in shadows:
             out.append(ind + DECLS[shadows[s.idx]] % declname)
+        elif bystander == 2:
+            # a wildcard USE of the very module the shadowing USE ... ONLY
+            # statements name: each scope still records its own USE, and the
+            # names an inner ONLY list imports still shadow
+            out.append(ind + "use mm")
         elif bystander:
             # an unrelated USE in every scope that declares nothing: it must
             # not stop the search of the enclosing scopes
@@ -235,6 +240,8 @@ def expected_tables(units, intr, shadows, ref_scopes=(), bystander=False):
                 mods.add("mm")
             else:
                 syms.add(name)
+        elif bystander == 2:
+            mods.add("mm")
         elif bystander:
             mods.add("other_mod")
         tname = s.name.lower()
@@ -333,7 +340,7 @@ def run(task):
     tier, shape = task
     res = Result()
     for units, flat, intr, shadows, ref_scopes, stds in cases(tier, shape):
-      for bystander in ((False, True) if len(shadows) <= 1 else (False,)):
+      for bystander in ((0, 1, 2) if len(shadows) <= 1 else (0,)):
         src = render(units, ref_scopes, intr, shadows, bystander)
         for std in stds:
             res.evals += 1
@@ -359,7 +366,7 @@ def replay(case):
     shadows = {int(k): v for k, v in case["shadows"].items()}
     intr = tuple(case["intr"])
     ref_scopes = set(range(len(flat)))
-    by = bool(case.get("bystander"))
+    by = int(case.get("bystander") or 0)
     src = render(units, ref_scopes, intr, shadows, by)
     vs, o = judge(units, flat, src, case["std"], intr, shadows, ref_scopes, by)
     return [{"sig": "C16|%s|%s" % (k, feature(case["shape"], shadows, flat)), "detail": d} for k, d in vs]
